@@ -18,9 +18,12 @@ def lomond(fresh=False):
         if 'lomond' not in sys.modules:
             env.install()
         _ready = True
-    elif fresh and not getattr(env, 'PRISTINE', False):
+    if not getattr(env, 'PRISTINE', False):
         from symlomond import instrument
-        instrument.reload_fresh()
+        if fresh:
+            instrument.reload_fresh()
+        else:
+            instrument.ensure_clean_state()
     import lomond as L
     return L
 
